@@ -34,6 +34,10 @@ CHECKS = {
                 technique="runtime monitoring with fault injection: reference encoders (flate2 levels 0-9, hand-written stored/fixed-Huffman encoder, gzip header options) produce the streams; every truncation offset and every trailer bit flip is served; payload is the prefix oracle after every read",
                 text="Compressed responses over all block types, levels, gzip header options, coding declarations (letter case, lists, Content-/Transfer-Encoding), framings, segmentations and read plans must decode to exactly the payload; unknown codings must pass through unchanged; every truncation offset of 10 fixed streams (framing adjusted or left short) and every bit flip of the gzip trailer must end with Err with only a payload prefix delivered; corrupted gzip bodies must not decode cleanly to different bytes; Accept-Encoding is observed on the wire.",
                 note="Trusts the reference encoders (cross-checked against flate2's decoder in the harness unit test). zlib-wrapped deflate, multi-member gzip and flips in raw-deflate bodies are outside the judged zone."),
+    "C18": dict(cat="exploration", design="DESIGN.md §3 C18",
+                technique="runtime monitoring over a bounded-exhaustive configuration matrix plus every-cut segmentation: scripted responses, one-shot encoding_rs decode as oracle for the charset the statement selects",
+                text="Every exported charset x labels (canonical + WHATWG aliases, three letter cases) x Content-Type form x default-charset setting x API (text, text_with, text_utf8, text_reader with caller buffers 1..8192) x body kind (valid, random, truncated multi-byte tail, lone surrogates / escape garbage), every single cut offset of 14 multi-byte bodies, and random cases incl. BOM-prefixed bodies (judged for segmentation independence only); the decoded string must equal the one-shot decode with the selected charset and no API may fail.",
+                note="encoding_rs (the library the crate itself uses) is the decoding oracle: what is checked is the choice of charset, totality and chunking independence, not encoding_rs's tables."),
 }
 
 NOT_APPLICABLE = {}
